@@ -226,7 +226,8 @@ def leaf(x):
   if isinstance(x, bytes):
     return {'bytes': x.hex()}
   if isinstance(x, _sigs.NoValue):
-    return {'NO_VALUE': 1}
+    # the sentinel is a singleton: a look-alike instance is NOT it
+    return {'NO_VALUE': 1} if x is _sigs.NO_VALUE else {'NO_VALUE': 'another instance'}
   if x is _sigs.VARARGS:
     return {'VARARGS': 1}
   if isinstance(x, enum.Enum):
